@@ -59,7 +59,7 @@ func runC09Default(r *Run) {
 		r.Fail("harness", "build", "%v", err)
 		return
 	}
-	n := 30 + t.Intn(170, "ops")
+	n := 30 + t.Intn(scale(170, 600), "ops")
 	zeroDur := t.Chance(25, "allow-zero-durations")
 	r.Mixf("C09 default window-size=%d min=%v max=%v threshold=%v ops=%d zero-durations=%v", ws, minW, maxW, thr, n, zeroDur)
 	type tok struct {
